@@ -63,7 +63,7 @@ def strategy(stratum, tier):
             st.tuples(gens.coef(-2, 2), f(0.0, 1.0)).map(lambda t: [t[0], t[0] + (t[1] if t[1] > 0.3 else 0.0)]),
             st.sampled_from([[-1.0, 1.0], [-0.5, 0.5], [0.0, 1.0], [-2.0, 0.0]]),
         ),
-        p=f(0.5, 5.0),
+        p=st.one_of(f(0.5, 5.0), f(0.5, 5.0), f(0.5, 5.0), st.sampled_from([0.0, 0, 1, 2, 3.0])),  # incl. the flat spectrum p = 0 and ints
         intensity=gens.log_floats(1e-5, 0.1),
         std=f(0.1, 3.0),
         ndisc=st.integers(1, 4),
@@ -182,6 +182,10 @@ def check(case):
         raw = np.asarray(mk(False, False)(N, key=k1))
         m = float(np.mean(raw))
         res.true("offset_in_range", off[0] - 1e-9 <= m <= off[1] + 1e-9, key=key + ":offset", msg="mean %.6g not in %s" % (m, off))
+        if off[1] - off[0] > 1e-6:
+            # a non-degenerate range (also one that is symmetric about 0) yields a uniformly drawn offset: the mean is not
+            # (numerically) zero - a coincidence has probability ~1e-9
+            res.true("offset_drawn_from_non_degenerate_range", abs(m) > 1e-9 * (off[1] - off[0]), key=key + ":offset", msg="mean %.3g for offset_range %s" % (m, off))
         if off[0] == off[1]:
             res.claim("offset_realised", abs(m - off[0]), 1e-10 * (abs(off[0]) + float(np.max(np.abs(raw))) + 1e-300), key=key + ":offset")
         if mo:
